@@ -10,7 +10,7 @@ from .common import loc_of
 
 POSITIONAL = frozenset(["index", "first_val", "last_val", "rev", "enumerate", "skip", "take", "subrange",
                         "slice_from", "sorted", "sort_by_key", "setidx", "position_val", "fold", "foldgen",
-                        "max_of", "min_of", "nonempty"])
+                        "max_of", "min_of", "nonempty", "take_while", "skip_while", "map_while", "step_by"])
 STEP_VEC_OPS = frozenset(["vop", "vsumover", "rep", "vneg"])
 
 
@@ -39,8 +39,9 @@ def is_step_vector(t, memo):
 def iter_over_steps(it, memo):
     if it.op == "iter":
         return is_step_vector(it.a[0], memo)
-    if it.op in ("map", "filter", "filter_map", "rev", "enumerate", "skip", "take"):
-        return iter_over_steps(it.a[0], memo)
+    if it.op in ("map", "filter", "filter_map", "rev", "enumerate", "skip", "take", "take_while", "skip_while",
+                 "map_while", "step_by", "iter_mut"):
+        return isinstance(it.a[0], tm.T) and iter_over_steps(it.a[0], memo)
     if it.op == "zip":
         return iter_over_steps(it.a[0], memo) or iter_over_steps(it.a[1], memo)
     return False
@@ -74,6 +75,19 @@ def run(ctx, rep):
                 hit = is_step_vector(target, memo) or iter_over_steps(target, memo)
                 if hit:
                     seen_pos.setdefault(t.op, t)
+        # a loop the evaluator could not put into a closed form (`foldgen`) and that runs along the step axis or
+        # carries a per-step vector: nothing is known about how it combines the steps (fail closed)
+        for t in tm.subterms(e.result):
+            if t.op == "foldgen" and t.a and isinstance(t.a[0], int):
+                info = e.ev.loops_info.get(t.a[0])
+                if info is None:
+                    continue
+                along = iter_over_steps(info["iter"], memo) or any(
+                    s_.op in ("take_while", "skip_while", "map_while", "step_by", "call", "havoc") for s_ in tm.subterms(info["iter"]))
+                carried = any(isinstance(x, tm.T) and any(is_step_vector(s_, memo) for s_ in tm.subterms(x))
+                              for x in list(info["init"]))
+                if along and carried:
+                    seen_pos.setdefault("unclassified-loop", info["iter"])
         # a branch on the number of steps makes results depend on how time is subdivided
         for t in tm.subterms(e.result):
             if t.op in ("lt", "le", "eq") and len(t.a) == 2:
